@@ -67,6 +67,20 @@ CHECKS["C19"] = dict(
     note="Partial: everything behind the modelled path (fee arithmetic, output construction, signing, serialisation, keystore, database) is an oracle in the proof and covered by exploration only. Trusted: Coq kernel (no axioms), Go compiler's prove pass (bounds-check report), the go/ast translator and the reviewed pinned dispositions, ExtrOcamlBasic + driver, harness with DB gate, verif hooks; mass-core, goleveldb, grpc are environment. 12 panics repaired; known finding index-hint stall.",
     technique="Coq proof over a model with explicit Panic outcomes + source-derived inventory drift check + exploration of the real API under recover() with extracted-model correspondence",
 )
+CHECKS["C06"] = dict(
+    category="proof",
+    text="Coq model of the wallet process as persistent store + volatile state (tip copy, keystore table, task queue) over the C01 ledger: the volatile state is a function of the store at every commit boundary, a run with crashes at any list of commit indexes equals the uncrashed run once the node's tip announcement is processed (= the chain specification), Start leaves the wallet on the node's tip, the rebuilt task queue has the lost queue's members (partial), refutation witness for the start-up defect repaired in 94ad7bb. Tied to the code by crash-point enumeration on the real wallet: histories (create/new address/import/remove/blocks/reorgs/background work/Start) replayed with the LevelDB handle closed right after commit k (single/double/triple crashes, node moving on while down), reopened, compared with the uncrashed twin and, through the C01 driver, with the model and the chain specification.",
+    design_ref="DESIGN.md section 5, C06",
+    note="Trusted: Coq kernel (no axioms), ocaml/C01 driver + ExtrOcamlBasic, harness (dbwrap, cfsim, sim, hist; deterministic crypto/rand swap), LevelDB journal for a crash inside a batch write. Theorems exclude fast-forward over a stale fork and a node reorganised back to genesis; ledger effect of import/removal steps enumerated only. Known finding addressbook-row-lost-by-rollback (address rows compared separately).",
+    technique="Coq proof (crash = restart from the store, induction over histories using the C01 theorems) + crash-point enumeration on the real wallet with twin comparison",
+)
+CHECKS["C18"] = dict(
+    category="proof",
+    text="Coq model with a failing-call parameter: a failed NewAddress leaves store and (repaired) cache unchanged and its retry returns the fault-free address, addresses are numbered consecutively for ANY sequence of failing/succeeding calls, a faulted block announcement changes nothing and its retry equals the fault-free one, single and double faults in the last removal round are retried to completion; refutation witnesses for the four defects of the code as found. Tied to the code by fault enumeration on the real wallet: every numbered database call (begin, get, put, delete, commit, …) of every operation of generated histories made to fail once or repeatedly through a DB wrapper, the operation must report or recover, nothing observable may change, the retry and the end state must equal the fault-free twin.",
+    design_ref="DESIGN.md section 5, C18",
+    note="Trusted: Coq kernel (no axioms), ocaml/C01 driver, harness (dbwrap fault injector, cfsim). Fault = the call returns an error and has no effect. Create/import/remove under faults are enumerated, not proved; three consecutive faults in the last removal round still need a restart (stated as a _partial theorem); swallowed-read sites in the pending-transaction code are not reached. Four defects repaired (f6a5978, 23ccdb6, 33294fa).",
+    technique="Coq proof (operation = commit entirely or leave the store unchanged; retry equivalence) + storage-fault enumeration on the real wallet with twin comparison",
+)
 NOT_YET = "not claimed yet in this round: model and correspondence under construction (see DESIGN.md section 9 for the order)"
 
 def main():
